@@ -4,6 +4,10 @@
 
 pub const PAGE: usize = 4096;
 
+/// number of PROT_NONE pages on each side of the data area: 17 pages = 68 KiB, more than any offset a
+/// 16-bit length field can produce, so that a far over-read cannot jump over the guard zone
+pub const GUARD_PAGES: usize = 17;
+
 pub struct Arena {
     base: *mut u8,
     data_pages: usize,
@@ -11,10 +15,10 @@ pub struct Arena {
 unsafe impl Send for Arena {}
 
 impl Arena {
-    /// `[guard page][data_pages readable+writable][guard page]`
+    /// `[guard zone][data_pages readable+writable][guard zone]`
     pub fn new(data_pages: usize) -> Arena {
         unsafe {
-            let total = (data_pages + 2) * PAGE;
+            let total = (data_pages + 2 * GUARD_PAGES) * PAGE;
             let p = libc::mmap(
                 std::ptr::null_mut(),
                 total,
@@ -26,7 +30,7 @@ impl Arena {
             assert!(p != libc::MAP_FAILED, "mmap arena");
             let base = p as *mut u8;
             let r = libc::mprotect(
-                base.add(PAGE) as *mut libc::c_void,
+                base.add(GUARD_PAGES * PAGE) as *mut libc::c_void,
                 data_pages * PAGE,
                 libc::PROT_READ | libc::PROT_WRITE,
             );
@@ -38,7 +42,15 @@ impl Arena {
         self.data_pages * PAGE
     }
     fn data(&self) -> *mut u8 {
-        unsafe { self.base.add(PAGE) }
+        unsafe { self.base.add(GUARD_PAGES * PAGE) }
+    }
+    /// fill the bytes next to where an input of `len` bytes is going to be placed (both placements)
+    pub fn poison_neighbours(&self, len: usize, v: u8) {
+        unsafe {
+            let n = (len + 256).min(self.capacity());
+            std::ptr::write_bytes(self.data(), v, n);
+            std::ptr::write_bytes(self.data().add(self.capacity() - n), v, n);
+        }
     }
     pub fn fill(&self, v: u8) {
         unsafe { std::ptr::write_bytes(self.data(), v, self.capacity()) }
@@ -88,7 +100,7 @@ impl Arena {
 impl Drop for Arena {
     fn drop(&mut self) {
         unsafe {
-            libc::munmap(self.base as *mut libc::c_void, (self.data_pages + 2) * PAGE);
+            libc::munmap(self.base as *mut libc::c_void, (self.data_pages + 2 * GUARD_PAGES) * PAGE);
         }
     }
 }
